@@ -394,6 +394,23 @@ def leg_c(ctx, names):
 
 
 # ---------- driver ----------
+def huge_fields(ctx):
+    """Fields longer than 32 KiB and than 64 KiB (the length prefix has four bytes; TLC is not the tool for sequences of 70 000 elements, so these few
+    are encoded by the independent Python encoder of harness/vf/c06_ref.py, which follows the same schema): forge = reference bytes, unforge gives the expression back."""
+    from ..c06_ref import mich
+    cases = [{'bytes': 'ab' * 33000}, {'string': 'x' * 33000}, {'string': 'y' * 70000}, [{'int': '1'}] * 17000,
+             {'prim': 'Pair', 'args': [{'bytes': '00' * 40000}, {'string': 'z' * 66000}]}]
+    for k, j in enumerate(cases):
+        ctx.count(('huge', k), nontrivial=True)
+        ctx.replayed += 1
+        want = mich(j)
+        f = impl_forge(j)
+        u = impl_unforge(want)
+        if f != ('ok', want) or u != ('ok', j):
+            ctx.mismatch('C05:huge-field:%s' % ('forge' if f != ('ok', want) else 'unforge'), 'expression #%d with a field of more than 32 KiB (%d bytes encoded): forge %s, unforge of the reference bytes %s' % (
+                k, len(want), 'agrees' if f == ('ok', want) else (f[1] if f[0] != 'ok' else 'differs'), 'agrees' if u == ('ok', j) else (u[1] if u[0] != 'ok' else 'differs')), {'kind': 'huge', 'k': k})
+
+
 def run(ctx):
     names = prim_names()
     avail = available(names)
@@ -446,10 +463,16 @@ def run(ctx):
         raise MachineryError('vacuity: mutation classes %s, accepted %d, states per phase %s' % (sorted(seen_classes), accepted, pcs))
     ctx.second_pass()
     ctx.exhaustive = True
+    huge_fields(ctx)
     leg_c(ctx, names)
 
 
 def replay(ctx, rep):
+    if rep['case'].get('kind') == 'huge':
+        huge_fields(ctx)
+        for m in ctx.mismatches:
+            print('REPRODUCED', m.signature, m.detail)
+        return 1 if ctx.mismatches else 0
     names = prim_names()
     avail = available(names)
     c = rep['case']
